@@ -16,9 +16,9 @@ git -C $wt diff --stat -- lib src | tail -1 | tee -a $log
 cmake --build $wt/_b 2>&1 | tail -1 >> $log
 say "tests with change: $(ctest --test-dir $wt/_b -j1 --timeout 900 2>&1 | grep 'tests passed')"
 say "demo with change: exit $(demo)"
-git -C $wt stash -q -- lib src
+git -C $wt diff -- lib src > $wt/SEED/.cur.diff; git -C $wt apply -R $wt/SEED/.cur.diff
 cmake --build $wt/_b 2>&1 | tail -1 >> $log
 say "demo without change: exit $(demo)"
-git -C $wt stash pop -q
+git -C $wt apply $wt/SEED/.cur.diff; rm -f $wt/SEED/.cur.diff
 cmake --build $wt/_b 2>&1 | tail -1 >> $log
 say "done"
